@@ -80,8 +80,10 @@ Proof. exact blocked_iff. Qed.
 Print Assumptions C21_blocked_only_when_empty.
 
 (* The executable property evaluated on the IMPLEMENTATION's observations implies the headline: every
-   observed history that prop_C21 accepts is FIFO / exactly-once (and loss-free without Release). *)
+   observed sequential history that prop_C21 accepts is FIFO / exactly-once (and loss-free without Release).
+   (In concurrent-transfer mode prop_C21 directly demands: received = all written data, then io.EOF.) *)
 Theorem C21_prop_implies_fifo : forall i o cap ops outs,
+  conc_mode i = false ->
   decode_input i = Some (cap, ops) -> decode_outs o = Some outs -> prop_C21 i o = true ->
   is_prefix_of (concat (reads outs)) (concat (accepted_writes ops outs)) /\
   (~ In ORelease ops -> exists rest, concat (accepted_writes ops outs) = concat (reads outs) ++ rest).
@@ -94,7 +96,27 @@ Theorem C21_prop_of_model : forall i, wf_C21 i = true -> kf_C21 i = 0 -> prop_C2
 Proof. exact prop_of_model. Qed.
 Print Assumptions C21_prop_of_model.
 
+(* ALL SCHEDULES (atomic-step interleavings).  A writer task writes the chunks W in order - retrying the
+   unaccepted rest of a chunk - and then closes with io.EOF; a reader task reads with arbitrary buffer
+   sizes until it gets an error.  [t_run cap W sch] lets the scheduler [sch] decide, call by call, which
+   task performs its next pipe call (a blocked Read is a no-op).  Under EVERY schedule what the reader has
+   received is a prefix of concat W, and if the reader has seen an error, that error is io.EOF and it
+   has received exactly concat W.  (That every fair schedule does reach this point - no deadlock, no lost
+   wake-up with the real sync.Cond - is exercised by the harness class "concurrent", not proved.) *)
+Theorem C21_transfer_any_schedule : forall cap W sch,
+  let t := t_run cap W sch in
+  is_prefix_of (t_got t) (concat W) /\
+  (t_rerr t <> 0 -> t_got t = concat W /\ t_rerr t = E_EOF).
+Proof. exact transfer_any_schedule. Qed.
+Print Assumptions C21_transfer_any_schedule.
+
 (* Non-vacuity. *)
+(* a schedule over a 2-byte pipe that completes the transfer of 5 bytes in 3 chunks *)
+Example C21_ex_transfer :
+  let t := t_run 2 [[1;2;3]; []; [4;5]]
+             [SWriter; SReader 1; SWriter; SReader 3; SReader 3; SWriter; SWriter; SReader 2; SWriter; SWriter; SReader 2; SReader 2] in
+  t_got t = [1;2;3;4;5] /\ t_rerr t = E_EOF.
+Proof. exact ex_transfer. Qed.
 (* capacity 4, partial read, then a 3-byte write that fits only after the slide (r,w = 2,3 -> 0,4) *)
 Example C21_ex_slide :
   snd (run_pipe 4 ex_slide_ops) =
